@@ -63,8 +63,20 @@ int EvalExpression::run(AsmContext *asm_context, Var &answer, bool is_paren)
         break;
       }
 
+      // Every '(' is a recursive call.
+      static int paren_depth = 0;
+
+      if (paren_depth >= 128)
+      {
+        print_error(asm_context, "Parentheses nested too deeply");
+        return -1;
+      }
+
       Var var;
-      if (run(asm_context, var, true) != 0) { return -1; }
+      paren_depth++;
+      int ret = run(asm_context, var, true);
+      paren_depth--;
+      if (ret != 0) { return -1; }
       var_stack.push(var);
       count++;
     }
